@@ -624,3 +624,68 @@ def ssa_straightline(fn: ast.FunctionDef) -> ast.FunctionDef:
             version[base] += 1
             tgt.id = vname(base, version[base])
     return fn
+
+
+def ssa_params(fn: ast.FunctionDef, skip=('rng', 'self')) -> ast.FunctionDef:
+    """Parameters that are re-bound by plain top-level statements of the body
+    (`p = f(p)`, `p, q = g(p, q)`) and nowhere else: every re-binding gets a fresh name
+    `p__r<k>` and later reads are renamed to the version that reaches them, so the name `p`
+    always denotes the caller's argument.  (Rules compare returned expressions with parameter
+    names; a re-bound parameter must not pass for the argument.)"""
+    params = [a.arg for a in fn.args.posonlyargs + fn.args.args + fn.args.kwonlyargs]
+    params = [p for p in params if p not in skip]
+    top: Dict[str, int] = {}
+    for s in fn.body:
+        tg = []
+        if isinstance(s, ast.Assign) and len(s.targets) == 1:
+            t = s.targets[0]
+            tg = [t] if isinstance(t, ast.Name) else \
+                (list(t.elts) if isinstance(t, ast.Tuple) and
+                 all(isinstance(x, ast.Name) for x in t.elts) else [])
+        elif isinstance(s, ast.AnnAssign) and isinstance(s.target, ast.Name) and \
+                s.value is not None:
+            tg = [s.target]
+        for t in tg:
+            if t.id in params:
+                top[t.id] = top.get(t.id, 0) + 1
+    all_stores = _count_stores(fn)
+    # _count_stores counts the parameter's own binding as one store
+    cands = {p for p, k in top.items() if all_stores.get(p) == k + 1}
+    for n in ast.walk(fn):
+        if isinstance(n, (ast.Global, ast.Nonlocal)):
+            cands -= set(n.names)
+        if isinstance(n, (ast.FunctionDef, ast.Lambda)) and n is not fn:
+            cands -= _names(n)
+    if not cands:
+        return fn
+    fn = copy.deepcopy(fn)
+    version = {p: 0 for p in cands}
+
+    def vname(p: str) -> str:
+        return p if version[p] == 0 else f'{p}__r{version[p]}'
+
+    def rename_loads(node: ast.AST) -> None:
+        for x in ast.walk(node):
+            if isinstance(x, ast.Name) and isinstance(x.ctx, ast.Load) and x.id in cands:
+                x.id = vname(x.id)
+    for s in fn.body:
+        tg = []
+        if isinstance(s, ast.Assign) and len(s.targets) == 1:
+            t = s.targets[0]
+            tg = [t] if isinstance(t, ast.Name) else \
+                (list(t.elts) if isinstance(t, ast.Tuple) and
+                 all(isinstance(x, ast.Name) for x in t.elts) else [])
+            rename_loads(s.value)
+        elif isinstance(s, ast.AnnAssign) and isinstance(s.target, ast.Name) and \
+                s.value is not None:
+            tg = [s.target]
+            rename_loads(s.value)
+        else:
+            rename_loads(s)
+        hit = [t for t in tg if t.id in cands]
+        if tg and not hit:
+            continue
+        for t in hit:
+            version[t.id] += 1
+            t.id = vname(t.id)
+    return fn
